@@ -169,12 +169,15 @@ impl C01 {
             Hist { retention: 2, rotations: 3, dup_attempt: false, advance: 0, pre: 0, init: 0 },
             Hist { retention: 2, rotations: 2, dup_attempt: false, advance: 0, pre: 0, init: 0 },
             Hist { retention: 0, rotations: 0, dup_attempt: false, advance: 20, pre: 0, init: 0 },
-            Hist { retention: 1, rotations: 1, dup_attempt: false, advance: 1000, pre: 0, init: 0 },
+            Hist { retention: 1, rotations: 1, dup_attempt: false, advance: 7_000_000, pre: 0, init: 0 },
             Hist { retention: 0, rotations: 0, dup_attempt: false, advance: 0, pre: 1, init: 0 },
             Hist { retention: 1, rotations: 1, dup_attempt: false, advance: 0, pre: 2, init: 0 },
             Hist { retention: 0, rotations: 0, dup_attempt: false, advance: 0, pre: 0, init: 1 },
             Hist { retention: 0, rotations: 0, dup_attempt: false, advance: 0, pre: 0, init: 2 },
             Hist { retention: 1, rotations: 0, dup_attempt: false, advance: 0, pre: 0, init: 2 },
+            // the largest retention: every installed set stays valid
+            Hist { retention: u64::MAX, rotations: 1, dup_attempt: false, advance: 0, pre: 0, init: 0 },
+            Hist { retention: u64::MAX, rotations: 3, dup_attempt: false, advance: 20, pre: 0, init: 2 },
         ];
         let mut cfgs = vec![];
         for s in &sets {
@@ -647,7 +650,7 @@ fn main() {
     main_for(|tier| {
         let s = C01::new(tier == "thorough");
         let mut o = Opts::new(tier, 1);
-        o.rule = "one submission from each base state; base states = 11 (quick) / 17 (thorough, adds 4-signer sets) signer configurations with boundary weights/thresholds x 12 histories (constructed with one or two initial sets in either order, retention 0-2, 0-3 real rotations after the set under test, 0 / 20 / 1000 ledgers passing, message m1 already approved / already executed before the submission). Per base state: EVERY vector of per-signer status from {unsigned, valid, other domain separator, other command kind, other batch, other signer-set hash, other key, bit-flipped R, bit-flipped s} (9^N on the fresh gateway, 3^N on the histories) through approve_messages and validate_proof; 10 tamperings of the declared set x {signatures over the true set's digest, over the tampered set's digest}; batches of 1, 2 and 2-with-duplicate-id, each also submitted with one field / one message changed relative to the signed batch. Oracle: independent predicate (set installed and retained, valid weight >= threshold) with independently recomputed digests".into();
+        o.rule = "one submission from each base state; base states = 11 (quick) / 17 (thorough, adds 4-signer sets) signer configurations with boundary weights/thresholds x 14 histories (constructed with one or two initial sets in either order, retention 0-2 and u64::MAX, 0-3 real rotations after the set under test, 0 / 20 / 7,000,000 ledgers passing, message m1 already approved / already executed before the submission). Per base state: EVERY vector of per-signer status from {unsigned, valid, other domain separator, other command kind, other batch, other signer-set hash, other key, bit-flipped R, bit-flipped s} (9^N on the fresh gateway, 3^N on the histories) through approve_messages and validate_proof; 10 tamperings of the declared set x {signatures over the true set's digest, over the tampered set's digest}; batches of 1, 2 and 2-with-duplicate-id, each also submitted with one field / one message changed relative to the signed batch. Oracle: independent predicate (set installed and retained, valid weight >= threshold) with independently recomputed digests".into();
         (s, o)
     });
 }
